@@ -1104,7 +1104,8 @@ def _tone_source(b, rv, depth=0):
 
 
 def flw7(ctx):
-    r = RuleResult("FLW-7", "an empty place is absent: raw `*place = ..` writes assign None only; segment node bytes are written only by set_node; data file places are normalised", floor=14)
+    # 14 sites today; the four normalising stores of the setters may legitimately be one shared helper (11)
+    r = RuleResult("FLW-7", "an empty place is absent: raw `*place = ..` writes assign None only; segment node bytes are written only by set_node; data file places are normalised", floor=11)
     lib = ctx.lib
     n = 0
     for b in lib.bodies:
@@ -1154,6 +1155,11 @@ def flw7(ctx):
         ws = field_writes(b, "asca::place::Place", ("0",))
         for f, bi, loc, deref, s in ws:
             ok = b.path.startswith("asca::place::Place::set_")
+            if not ok and b.path.startswith("asca::place::Place::") and not b.is_pub and _is_none_local(b, s["rv"]):
+                # a private helper of Place that only ever stores `None` (the shared normalisation step), called from the
+                # setters and from nowhere else
+                callers = {cb.path for cb in lib.bodies if not cb.in_test_mod() and any((callee_path(t) or "") == b.path for _, t in cb.calls())}
+                ok = bool(callers) and all(c.startswith("asca::place::Place::set_") for c in callers)
             r.inst("%s writes Place.0" % b.path.rsplit("::", 1)[-1], loc, "ok" if ok else "report", nontrivial=not ok)
             if not ok:
                 r.report("FLW-7|%s|place-inner" % b.path, loc, b.path, "Place's packed word is written outside the four setters")
